@@ -18,7 +18,7 @@ import vlib
 
 WRAPS = ["psGetBrokenDownGMTime", "psGetEntropy", "psGetPrngLocked", "psGetTime", "csAesGcmEncryptTls13",
          "csChacha20Poly1305IetfEncryptTls13", "matrixValidateCertsExt", "psSign", "psRsaDecryptPriv", "tls13Verify",
-         "chooseSkeSigAlg", "chooseSigAlg"]
+         "chooseSkeSigAlg", "chooseSigAlg", "sslUpdateHSHash", "tls13TranscriptHashUpdate", "tls13EncryptMessage"]
 
 PASS = 1
 STATUS_NAME = {1: "PASS", 0: "UNEXAMINED", -32: "FAIL_BC", -33: "FAIL_DN", -34: "FAIL_SIG", -35: "FAIL_REVOKED", -36: "FAIL",
@@ -251,6 +251,11 @@ def live_scenarios(ck):
                 for fh in (2, 5):
                     S.append(dict(base, ccb=cbm, sigalgs=sa, forcehash="%d:s" % fh, _cls="valid", _cb=cbn, _side="c", _pop="unoffered-alg", _alg=fh, _offer="4"))
                 S.append(dict(base, ccb=cbm, sigalgs=sa, forcehash="4:s", _cls="valid", _cb=cbn, _side="c", _pop=None, _alg=4, _offer="4"))
+            # --- a server that OMITS its proof of possession (everything else genuine, its own Finished computed without the message)
+            if ver == 13:
+                S.append(dict(base, ccb=cbm, omit="cv:s", _cls="valid", _cb=cbn, _side="c", _pop="absent-cv"))
+            elif kex == "dhe":
+                S.append(dict(base, ccb=cbm, omit="skesig:s", _cls="valid", _cb=cbn, _side="c", _pop="absent-ske-sig"))
             # --- server verifies the client (client authentication); the client itself is permissive so that the run reaches the server's check
             if suite != "003c":
                 scred = [("valid", {}), ("expired", dict(year=2030, ccb=2)), ("wrong-ca", dict(sca=2)), ("no-ca", dict(sca=0))]
@@ -260,6 +265,10 @@ def live_scenarios(ck):
                     S.append(dict(base, cauth=1, scb=cbm, _cls=cls, _cb=cbn, _side="s", _pop=None, **kv))
                 for pm in ["flip", "stale", "replay", "wrongkey"]:
                     S.append(dict(base, cauth=1, scb=cbm, pop=pm + ":c", _cls="valid", _cb=cbn, _side="s", _pop=pm))
+                # a client that sends Certificate (non-empty) but NO CertificateVerify, then a Finished that is genuine for that transcript
+                S.append(dict(base, cauth=1, scb=cbm, omit="cv:c", _cls="valid", _cb=cbn, _side="s", _pop="absent-cv"))
+                if ver == 13:       # same through the honest encoder alone: the client believes its Certificate was empty
+                    S.append(dict(base, cauth=1, scb=cbm, preset="emptycert", _cls="valid", _cb=cbn, _side="s", _pop="absent-cv-preset"))
                 if ver == 12:
                     sa = "0401" if key == "rsa" else "0403"
                     S.append(dict(base, cauth=1, scb=cbm, ssigalgs=sa, forcehash="2:c", _cls="valid", _cb=cbn, _side="s", _pop="unoffered-alg", _alg=2, _soffer="4"))
@@ -313,6 +322,13 @@ def live_matrix(ck, h, drv, altkeys, corpus_l):
         cbm = s.get("ccb" if side == "c" else "scb", 0)
         told = ver_peer["cblast"] if ver_peer["cbcalls"] else None
         accepted = cls == "valid" or (cbm == 2 and told not in (None, 0))
+        if s.get("omit"):
+            om = re.search(r" omit=(\d+):(\d+)", out[i])
+            applied = om and int(om.group(2)) >= 1 and int(om.group(1)) >= 1
+            if not applied:
+                ck.obligation("live:omission-applied", False, detail="%s => %s" % (line, out[i]))
+        if s.get("preset") and int(m.group(6)) != 0:
+            ck.obligation("live:preset-suppresses-client-signature", False, detail="%s => %s" % (line, out[i]))
         signs = int(m.group(6)) + int(m.group(7))
         if pop == "replay" and signs >= 100:
             ck.count("live:replay-not-applicable"); pop = None; s = dict(s, pop="")       # no usable recorded signature: this run was a plain handshake
@@ -338,10 +354,12 @@ def live_matrix(ck, h, drv, altkeys, corpus_l):
         salg = alg if s.get("forcehash", "").endswith(":c") else 4
         if vc == "-":
             continue
+        s_omits = s.get("omit", "").endswith(":s"); c_omits = s.get("omit", "").endswith(":c") or s.get("preset") == "emptycert"
         if ver == 12:
-            first = [cert_tok(vc, ca_c, s.get("depth", 0))] + (["ske:%d:%d" % (calg, SIG[spop])] if kex == "dhe" else []) + ["shd"]
+            ske = ["skeu"] if s_omits else ["ske:%d:%d" % (calg, SIG[spop])]
+            first = [cert_tok(vc, ca_c, s.get("depth", 0))] + (ske if kex == "dhe" else []) + ["shd"]
         else:
-            first = [cert_tok(vc, ca_c, s.get("depth", 0)), "cv:%d:%d" % (calg, SIG[spop]), "fin:1"]
+            first = [cert_tok(vc, ca_c, s.get("depth", 0))] + ([] if s_omits else ["cv:%d:%d" % (calg, SIG[spop])]) + ["fin:1"]
         head_c = "M %d c %s %s %d %s " % (ver, kex, ccb, fixske, c_off)
         back.append((i, "c1", line, out[i])); mlines.append(head_c + " ".join(first)); mexp.append(None)
         if s.get("cauth"):
@@ -350,9 +368,9 @@ def live_matrix(ck, h, drv, altkeys, corpus_l):
                 # CertificateRequest with an EMPTY Certificate message (harness fact: cls wrong-ca on the server side)
                 smsgs = ["nocert"] if s["_cls"] == "wrong-ca" else []
             elif ver == 12:
-                smsgs = [cert_tok(vs, ca_s, 0), "cke", "cv:%d:%d" % (salg, SIG[cpop]), "fin:1"]
+                smsgs = [cert_tok(vs, ca_s, 0), "cke"] + ([] if c_omits else ["cv:%d:%d" % (salg, SIG[cpop])]) + ["fin:1"]
             else:
-                smsgs = [cert_tok(vs, ca_s, 0), "cv:%d:%d" % (salg, SIG[cpop]), "fin:1"]
+                smsgs = [cert_tok(vs, ca_s, 0)] + ([] if c_omits else ["cv:%d:%d" % (salg, SIG[cpop])]) + ["fin:1"]
             back.append((i, "s", line, out[i])); mlines.append("M %d s dhe %s %d %s " % (ver, scb, fixske, s_off) + " ".join(smsgs)); mexp.append(None)
         if ver == 12:
             vd = 81 if s.get("kt") == "wrongkey" else (71 if kex == "rsa" else 1)
@@ -473,7 +491,9 @@ def run(ck):
     ck.rules.append("live matrix: %d handshakes: {valid, expired, wrong CA, no CA, no CA + self-signed root, name mismatch, validator argument failure} x "
                     "{no / strict / permissive callback} x {RSA key transport 009c/003c, ECDHE-RSA c02f, ECDHE-ECDSA c02b, TLS 1.3 RSA, TLS 1.3 ECDSA} x {client, "
                     "server verifying}; proofs of possession corrupted, over stale data, replayed from another handshake, made with another key, made with an "
-                    "algorithm that was not offered; RSA key transport with a server lacking the private key" % nl)
+                    "algorithm that was not offered, or simply ABSENT (CertificateVerify left out by a client / by a TLS 1.3 server, ServerKeyExchange "
+                    "without signature; the omitting peer's own transcript and Finished are those of a peer that never wrote the message); RSA key "
+                    "transport with a server lacking the private key" % nl)
     ck.cov["exhaustive"] = (ck.tier == "thorough")
     ck.cov["verdict_domain_size"] = total
     ck.cov["verdict_cases_run"] = n
